@@ -14,6 +14,16 @@ let exit = process/exit in
 "#;
 
 pub fn render(c: &Value) -> String {
+    if c.get("fam").and_then(|f| f.as_str()) == Some("seal") {
+        let rhs = if c["kind"] == "data" { "data | +K : Int64 end" } else { "Int64" };
+        let build = if c["kind"] == "data" { "+K(3)" } else { "3" };
+        let (ma, mb) = (c["ma"].as_str().unwrap(), c["mb"].as_str().unwrap());
+        let at = if c["use"] == "cross" { "B" } else { "A" };
+        let elim = if c["kind"] == "data" { "match b | +K(n) => ! exit n end".to_string() } else { "! exit b".to_string() };
+        // an Int64-sealed value cannot be eliminated at Int64 (that is the point); it is only passed on
+        let elim = if c["kind"] == "int" && ((at == "A" && ma == "def") || (at == "B" && mb == "def")) { "! exit 3".to_string() } else { elim };
+        return format!("{PRELUDE}begin\n  {ma} A = {rhs} that\n  {mb} B = {rhs} that\n  let a : A = {build} that\n  let b : {at} = a that\n  {elim}\nend\n");
+    }
     let pkg = c["pkg"].as_str().unwrap();
     let path: Vec<&str> = c["path"].as_array().unwrap().iter().map(|s| s.as_str().unwrap()).collect();
     let (pkg_ty, pkg_def, mut val, mut pat) = if pkg == "box" {
